@@ -137,6 +137,7 @@ static Plan plan_from_json(const sj::Value &j) {
 
 // ------------------------------------------------------------------ pools
 struct Pools {
+    size_t grown = 0;
     vector<string> emails;      // corpora e-mail lines
     vector<string> idn;         // addresses whose domain reaches the converter with non-ASCII / xn--
     vector<string> gen;         // generated local x domain
@@ -313,7 +314,21 @@ static void build_pools() {
         size_t at = e.rfind('@');
         if (at != string::npos && (has_hi(e.substr(at)) || e.find("xn--", at) != string::npos)) G.idn.push_back(e);
     }
-    for (auto &v : { &G.emails, &G.idn, &G.gen, &G.conv }) for (auto &s : *v) G.all.push_back(s);
+    // addresses a coverage-guided front end found (they reached library code the pools above did not): first in the sweep order
+    if (const char *cf = getenv("VERIF_CORPUS")) if (*cf) {
+        try {
+            sj::Value j = sj::parse(sj::read_file(cf));
+            for (auto &e : j.a) {
+                string a = e.s; if (a.empty() || a.find('\0') != string::npos) continue;
+                G.all.push_back(a); G.grown++;
+                size_t at = a.rfind('@');
+                if (at != string::npos && (has_hi(a.substr(at)) || a.find("xn--", at) != string::npos || a.find("XN--", at) != string::npos)) { G.idn.push_back(a); G.conv.push_back(a); }
+                else G.gen.push_back(a);
+                G.emails.push_back(a);
+            }
+        } catch (...) { }
+    }
+    { std::set<string> have(G.all.begin(), G.all.end()); for (auto &v : { &G.emails, &G.idn, &G.gen, &G.conv }) for (auto &s : *v) if (have.insert(s).second) G.all.push_back(s); }
 }
 
 // ------------------------------------------------------------------ generation
@@ -1541,6 +1556,42 @@ int main(int argc, char **argv) {
     build_pools();
 
     if (mode == "probe") { probe(); return 0; }
+
+    if (mode == "grow") {
+        // coverage-guided corpus growth: mutate pool addresses, keep what reaches an edge of the library that nothing before it
+        // reached (all four modes, TLD check on and off, message and result read back).  Deterministic in (seed, iterations).
+        long iters = strtol(arg(argc, argv, "--iters", "20000"), nullptr, 10);
+        string out = arg(argc, argv, "--out", "");
+        sim_rng r = sim_derive(seed, 0x6707);
+        sim_ledger_reset(seed); sim_conv_begin(0, 0, 0);
+        size_t esz = shim_eav_size();
+        auto run = [&](const string &a) -> unsigned {
+            g_sim_cov_new = 0;
+            for (int m = 0; m < 4; m++) for (int t = 0; t < 2; t++) {
+                void *e = malloc(esz); memset(e, 0xa5, esz);
+                shim_init(e); shim_set_rfc(e, m);
+                if (shim_setup(e) == 0) { shim_set_tld_check(e, t); (void)shim_is_email(e, a.c_str(), a.size()); (void)shim_errstr(e); shim_res rr; shim_get_result(e, &rr); }
+                shim_free(e); free(e);
+            }
+            return g_sim_cov_new;
+        };
+        vector<string> corpus; { std::set<string> seen; for (auto &a : G.all) if (a.size() <= 4096 && seen.insert(a).second) corpus.push_back(a); }
+        for (auto &a : corpus) run(a);
+        unsigned base_edges = sim_cov_edges_hit();
+        vector<string> added;
+        for (long i = 0; i < iters; i++) {
+            const string &b = (!added.empty() && sim_below(&r, 2)) ? added[sim_below(&r, added.size())] : corpus[sim_below(&r, corpus.size())];
+            string m = mut::mutate(&r, b);
+            if (sim_below(&r, 3) == 0) m = mut::mutate(&r, m);
+            if (m.empty() || m.size() > 70000) continue;
+            if (run(m) > 0) { added.push_back(m); if (added.size() >= 4000) break; }
+        }
+        sj::Value j = sj::Value::array(); for (auto &a : added) j.push(sj::Value::str(a));
+        if (!out.empty()) { FILE *f = fopen(out.c_str(), "wb"); if (f) { string d = sj::dump(j); fwrite(d.data(), 1, d.size(), f); fclose(f); } }
+        printf("{\"backend\":\"%s\",\"iterations\":%ld,\"seed_corpus\":%zu,\"edges_total\":%u,\"edges_hit_by_pools\":%u,\"edges_hit_after_growth\":%u,\"addresses_added\":%zu}\n",
+               shim_backend(), iters, corpus.size(), sim_cov_edges_total(), base_edges, sim_cov_edges_hit(), added.size());
+        return 0;
+    }
 
     if (mode == "gen") {
         long long idx = strtoll(arg(argc, argv, "--index", "0"), nullptr, 10);
